@@ -39,6 +39,18 @@ CHECKS["C05"] = dict(
     design="3/C05",
 )
 
+CHECKS["C15"] = dict(
+    technique="symbolic execution of the real kron/ikron/pkron/permute/partial_trace/itrace/partial_transpose on conj-pair complex symbols + z3 identity queries against index-arithmetic references; concolic execution (z3 QF_LIA) of the ownership / mixed-radix slicing arithmetic with symbolic row ranges",
+    text="Bounded symbolic model checking. For dimension lists over {1,2,3} (length <= 3, some of length 4) and every index subset in every order the dense routines agree entry-wise, "
+         "for arbitrary complex entries, with explicit references: embedding == Kronecker product with identities (overlay, cyclic placement, nested coordinates), pkron == embedding on "
+         "reordered sites, permute o embed == embed on permuted sites, partial trace == explicit partial sum with ket == projector, Tr[embed(A) rho] == Tr[A ptr rho], partial transpose an "
+         "involution. kron/ikron with ownership deliver exactly rows [ri, rf) with ri, rf symbolic (recorder operands: unbounded; symbolic entries: D <= 27, ranges enumerated by the solver); "
+         "dim_map / dim_compress on symbolic coordinates / dims. Sparse formats and Hamiltonian builders run on exactly representable entries with solver-enumerated ranges.",
+    note="Trusted: z3, qv engines. Symbolic entries never reach scipy.sparse kernels (FFI): sparse checks use concrete dyadic entries plus numeric cross-runs. Two dtype shims (common_type, "
+         "qarray.astype) act on object arrays only. Outside: partial_trace of bras, D == 1, numba compilation, parallel=True (C16). Known findings (8 families) are listed in known_findings.txt.",
+    design="3/C15",
+)
+
 NA = {}
 
 
